@@ -73,7 +73,7 @@ class FileGen:
         pad = rnd.choice([0, 0, 1, 7, 63, 64, 200, 4000]) if pad is None else pad
         return {'ver': 2, 'tmap': self.tmap(), 'recs': list(range(1, n + 1)), '_recs': recs, '_pad': pad}
 
-    def block(self, kind, strings):
+    def block(self, kind, strings, minlogs=0):
         rnd = self.rnd
         if kind == 'codes':
             return {'tag': 'codes', 'txt': rnd.choice(['0x1 A\n', '0x40c0004 BSC_x\n', '', 'ff Z\n0x10 Y\n'])}
@@ -86,7 +86,7 @@ class FileGen:
             return {'tag': kind, 'val': rnd.randrange(1, 99)}
         if kind == 'logs':
             evs = []
-            for _ in range(rnd.randrange(0, 4)):
+            for _ in range(rnd.randrange(minlogs, 4)):
                 evs.append({'cm': rnd.randrange(0, len(strings)),
                             'p': rnd.choice([-1, rnd.randrange(0, len(strings))]),
                             'tid': rnd.choice([0, 1, 2, 5, 6]), 'pid': rnd.randrange(0, 6)})
@@ -95,7 +95,7 @@ class FileGen:
             return {'tag': 'other'}
         raise KeyError(kind)
 
-    def v3(self, nrec=None, nchunks=None, nblocks=None):
+    def v3(self, nrec=None, nchunks=None, nblocks=None, force_logs=False):
         rnd = self.rnd
         n = rnd.choice([0, 1, 2, 3, 5, 9]) if nrec is None else nrec
         k = rnd.choice([1, 1, 2, 3]) if nchunks is None else nchunks
@@ -107,7 +107,9 @@ class FileGen:
         rnd.shuffle(strings)
         nb = rnd.choice([0, 1, 2, 3, 4, 6]) if nblocks is None else nblocks
         kinds = [rnd.choice(['codes', 'kexts', 'dyld', 'procs', 'images', 'logs', 'other']) for _ in range(nb)]
-        blocks = [self.block(kd, strings) for kd in kinds]
+        if force_logs and 'logs' not in kinds:
+            kinds.insert(rnd.randrange(0, len(kinds) + 1), 'logs')
+        blocks = [self.block(kd, strings, 2 if force_logs else 0) for kd in kinds]
         if any(b['tag'] == 'logs' for b in blocks) or rnd.random() < 0.2:
             blocks.insert(rnd.randrange(0, len(blocks) + 1), {'tag': 'strings', 'idx': strings})
         return {'ver': 3, 'tmap': self.tmap(), 'chunks': chunks, 'blocks': blocks, '_recs': recs,
